@@ -6,12 +6,14 @@ PROP = dict(
     specdir="store", engine="c01",
     mc=[dict(module="CAStore", cfg="MC_CAStore.cfg")],
     trace=dict(module="CAStoreTrace", cfg="CAStoreTrace.cfg", deque=True),
+    isolate=lambda head: bool((head.get("cfg") or {}).get("latewrite")),
     nontrivial=lambda recs: any(r.get("ev") in ("Refresh", "Upload", "Transfer") and r.get("kind") != "exact" for r in recs)
                             and any(r.get("ev") == "Refresh" and r.get("kind") == "exact" for r in recs),
     rule="seeded histories on a real CAStore with a mock clock (uploads, internal transfers, backend refreshes with exact / bit-flipped / "
          "truncated / extended / aborted streams; memory write-through off / on with capacities {0, one blob, 200, 1MiB}; reported size "
          "equal / smaller / larger; drain stepped by the driver); after every call bytes, stat size and metainfo readable under each of 3 "
-         "digests are compared with the true blob; non-trivial = at least one mismatching write and one matching refresh",
+         "digests are compared with the true blob; two dedicated histories keep an upload writer open across the commit and write through "
+         "it afterwards (F01b); non-trivial = at least one mismatching write and one matching refresh",
     assumptions=["sha256 / metainfo validity are computed with the Go standard library and core.NewMetaInfoFromBytes and enter the trace as classes",
                  "memory TTL expiry is model-checked but not driven on the real store"],
 )
